@@ -1316,6 +1316,129 @@ class Normalizer:
                 ast.fix_missing_locations(st)
                 self.log.append(f"{f.qualname}:{st.lineno} <- counting loop with a descending index written as a descending range")
 
+    def _canonical_default_stores(self):
+        """`X[i] = A; Y[i] = B; if c: X[i] = A2; Y[i] = B2` (the `if` has no else and re-stores exactly the targets just stored, its test
+        call-free and not reading X or Y) is `if c: X[i] = A2; Y[i] = B2 else: X[i] = A; Y[i] = B`."""
+        for f in self.prog.functions.values():
+            for n in ast.walk(f.node):
+                for fld in ("body", "orelse", "finalbody"):
+                    lst = getattr(n, fld, None)
+                    if not (isinstance(lst, list) and lst and isinstance(lst[0], ast.stmt)):
+                        continue
+                    i = 0
+                    while i < len(lst):
+                        st = lst[i]
+                        i += 1
+                        if not (isinstance(st, ast.If) and not st.orelse and st.body and all(
+                                isinstance(b_, ast.Assign) and len(b_.targets) == 1 and isinstance(b_.targets[0], ast.Subscript) for b_ in st.body)):
+                            continue
+                        k = len(st.body)
+                        j0 = i - 1 - k
+                        if j0 < 0:
+                            continue
+                        prev = lst[j0:i - 1]
+                        if not all(isinstance(p_, ast.Assign) and len(p_.targets) == 1 and isinstance(p_.targets[0], ast.Subscript) for p_ in prev):
+                            continue
+                        if sorted(ast.dump(p_.targets[0]) for p_ in prev) != sorted(ast.dump(b_.targets[0]) for b_ in st.body) or \
+                                len({ast.dump(p_.targets[0]) for p_ in prev}) != k:
+                            continue
+                        roots = {_root(p_.targets[0]) for p_ in prev}
+                        reads = {x.id for x in ast.walk(st.test) if isinstance(x, ast.Name)} | \
+                            {x.id for b_ in st.body for x in ast.walk(b_.value) if isinstance(x, ast.Name)} | \
+                            {x.id for p_ in prev for x in ast.walk(p_.value) if isinstance(x, ast.Name)}
+                        if None in roots or roots & reads or not all(isinstance(x, PURE_NODES) and not isinstance(x, ast.Call) for x in ast.walk(st.test)):
+                            continue
+                        if any(isinstance(x, ast.Call) for p_ in prev for x in ast.walk(p_.value)):
+                            continue
+                        st.orelse = list(prev)
+                        del lst[j0:i - 1]
+                        i = j0 + 1
+                        self.log.append(f"{f.qualname}:{st.lineno} <- default stores overwritten under a condition written as if/else")
+
+    def _canonical_return_for_break(self):
+        """A `return E` directly inside a top-level loop whose only successor statement is the function's final `return E` (E a plain
+        name that the code in between cannot rebind - there is none) is a `break`."""
+        for f in self.prog.functions.values():
+            body = f.node.body
+            if len(body) < 2 or not isinstance(body[-1], ast.Return) or not isinstance(body[-1].value, ast.Name) or not isinstance(body[-2], (ast.For, ast.While)):
+                continue
+            loop, final = body[-2], body[-1]
+            if loop.orelse:
+                continue
+
+            def own_returns(stmts, depth=0):
+                for s_ in stmts:
+                    if isinstance(s_, ast.Return):
+                        yield s_, stmts
+                    elif isinstance(s_, (ast.For, ast.While, ast.FunctionDef, ast.ClassDef, ast.Try, ast.With)):
+                        if any(isinstance(x, ast.Return) for x in ast.walk(s_)):
+                            yield None, None          # a return somewhere a break would not reach the same place: give up
+                    elif isinstance(s_, ast.If):
+                        yield from own_returns(s_.body, depth + 1)
+                        yield from own_returns(s_.orelse, depth + 1)
+            found = list(own_returns(loop.body))
+            if not found or any(r is None for r, _l in found):
+                continue
+            if not all(isinstance(r.value, ast.Name) and r.value.id == final.value.id for r, _l in found):
+                continue
+            for r, l_ in found:
+                l_[l_.index(r)] = ast.copy_location(ast.Break(), r)
+            self.log.append(f"{f.qualname}:{loop.lineno} <- `return {final.value.id}` inside the final loop written as break")
+
+    def _canonical_dict_buckets(self):
+        """A local `d = {}` / `dict()` that is only ever used as `d.setdefault(k, []).append(v)`, `d.get(k, [])` and `d[k]` is a
+        `collections.defaultdict(list)` used as `d[k].append(v)` and `d[k]` (which keys exist is never observed)."""
+        for f in self.prog.functions.values():
+            for st in [n for n in ast.walk(f.node) if isinstance(n, ast.Assign)]:
+                if not (len(st.targets) == 1 and isinstance(st.targets[0], ast.Name) and (
+                        (isinstance(st.value, ast.Dict) and not st.value.keys) or
+                        (isinstance(st.value, ast.Call) and isinstance(st.value.func, ast.Name) and st.value.func.id == "dict" and not st.value.args and not st.value.keywords))):
+                    continue
+                d = st.targets[0].id
+                occ = [x for x in ast.walk(f.node) if isinstance(x, ast.Name) and x.id == d]
+                if sum(1 for x in occ if not isinstance(x.ctx, ast.Load)) != 1:
+                    continue
+                parents = {}
+                for p_ in ast.walk(f.node):
+                    for c_ in ast.iter_child_nodes(p_):
+                        parents[id(c_)] = p_
+                sd, gets, subs, ok = [], [], [], True
+                for x in occ:
+                    if not isinstance(x.ctx, ast.Load):
+                        continue
+                    par = parents.get(id(x))
+                    gp = parents.get(id(par)) if par is not None else None
+                    if isinstance(par, ast.Attribute) and par.attr in ("setdefault", "get") and isinstance(gp, ast.Call) and gp.func is par and len(gp.args) == 2 \
+                            and not gp.keywords and isinstance(gp.args[1], ast.List) and not gp.args[1].elts:
+                        (sd if par.attr == "setdefault" else gets).append(gp)
+                    elif isinstance(par, ast.Subscript) and par.value is x and isinstance(par.ctx, ast.Load):
+                        subs.append(par)
+                    else:
+                        ok = False
+                if not ok or not sd:
+                    continue
+                # every setdefault call must be the receiver of an .append(...)
+                for c in sd:
+                    par = parents.get(id(c))
+                    gp = parents.get(id(par)) if par is not None else None
+                    if not (isinstance(par, ast.Attribute) and par.attr == "append" and isinstance(gp, ast.Call) and gp.func is par):
+                        ok = False
+                if not ok:
+                    continue
+
+                class X(ast.NodeTransformer):
+                    def visit_Call(self_, c):
+                        c = self_.generic_visit(c)
+                        if isinstance(c.func, ast.Attribute) and c.func.attr in ("setdefault", "get") and isinstance(c.func.value, ast.Name) and c.func.value.id == d \
+                                and len(c.args) == 2 and isinstance(c.args[1], ast.List) and not c.args[1].elts:
+                            return ast.copy_location(ast.Subscript(value=c.func.value, slice=c.args[0], ctx=ast.Load()), c)
+                        return c
+                X().visit(f.node)
+                st.value = ast.copy_location(ast.Call(ast.Attribute(ast.Name("collections", ast.Load()), "defaultdict", ast.Load()), [ast.Name("list", ast.Load())], []), st.value)
+                ast.fix_missing_locations(f.node)
+                f.module.imports.setdefault("collections", "collections")
+                self.log.append(f"{f.qualname}:{st.lineno} <- plain dict used as list buckets written as defaultdict(list)")
+
     def _canonical_continues(self):
         """Inside a loop body `if c: A; continue` followed by REST is `if c: A else: REST` (when the `if` has no else and its body ends
         with the `continue`): the same iterations run the same statements, written without a jump."""
@@ -1404,7 +1527,10 @@ class Normalizer:
         self._canonical_branch_locals()
         self._canonical_running_totals()
         self._canonical_star_args()
+        self._canonical_default_stores()
         self._canonical_conditional_stores()
+        self._canonical_return_for_break()
+        self._canonical_dict_buckets()
         self._canonical_continues()
         self._canonical_chained_assignments()
         self._canonical_counting_whiles()
